@@ -20,7 +20,7 @@ def akey(callid, h1, h2):
 def decorate(g, uri, level):
     if level == 0 or not uri.startswith("sip"):
         return "<%s>" % uri
-    return g.pick(["", "Bob ", '"B" ']) + "<%s%s%s>" % (uri, g.pick(["", ";transport=tcp", ";lr;x=1", ";transport=tls", ";transport=tls;lr"]), g.pick(["", "?h=v"]))
+    return g.pick(["", "Bob ", '"B" ']) + "<%s%s%s>" % (uri, g.pick(["", ";transport=tcp", ";lr;x=1", ";transport=tls", ";transport=tls;lr", ";tag=x", ";tag=1;lr", ";x=1;tag=x-1", ";TAG=x", ";tag"]), g.pick(["", "?h=v"]))
 
 def message(g, callid, ftag, furi, ttag, turi, as_response, level):
     sm = g.pick([0, 1, 2, 3, 4, 5]) if level else 0
